@@ -142,6 +142,14 @@ def check_ll(e, Sigma, sm, Y):
                     signature=dict(op='log_likelihood', cond='Tobs<=T' if Tobs <= T else 'Tobs>T', raised=True))
     if not (np.array_equal(S0, Sigma) and np.array_equal(Y0, Y)):
         return dict(what='log_likelihood modified an argument', input=inp, signature=dict(op='log_likelihood', cond='mutates-argument'))
+    # the same panel in other memory layouts (Fortran order, the transpose of an O x Tobs array, a strided view) is the same data
+    for lay, Yl in (('fortran', np.asfortranarray(Y)), ('transposed', np.ascontiguousarray(Y.T).T), ('strided', np.repeat(Y, 2, axis=1)[:, ::2])):
+        try:
+            gl = e.log_likelihood(Yl, Sigma, sm)
+        except Exception as ex:
+            return dict(what=f'log_likelihood raised {type(ex).__name__} for a data panel in {lay} memory layout', input=dict(inp, layout=lay), signature=dict(op='log_likelihood', cond='layout', layout=lay))
+        if not (gl == got or abs(gl - got) <= 1e-9 * max(1.0, abs(got))):
+            return dict(what='log_likelihood depends on the memory layout of the data panel', input=dict(inp, layout=lay), observed=float(gl), expected=float(got), signature=dict(op='log_likelihood', cond='layout', layout=lay))
     sign, logdet = np.linalg.slogdet(V)
     y = Y.ravel()
     exp = -(logdet + y @ np.linalg.solve(V, y)) / 2
